@@ -73,6 +73,13 @@ Definition as_f64_is_normal (x : num) : bool :=
   | NegInt z => negb (Z.eqb z 0)
   | Float b => f_is_normal b
   end.
+(* as_f64() != 0.0 && !as_f64().is_nan()  (JsonTruthy after the F5 fix) *)
+Definition as_f64_nonzero (x : num) : bool :=
+  match x with
+  | PosInt n => negb (N.eqb n 0)
+  | NegInt z => negb (Z.eqb z 0)
+  | Float b => negb (f_is_zero b) && negb (f_is_nan b)
+  end.
 Definition as_f64_is_nan (x : num) : bool :=
   match x with Float b => f_is_nan b | _ => false end.
 
